@@ -150,6 +150,21 @@ def eq_self_type(t):
     return t[1] + " " + " ".join(t[2]) if is_call(t) else ""
 
 
+def contains_facts(ctx, p, subject=("param", 1)):
+    """[(set of characters, truth)] for the conditions `subject.contains(c)` / `subject.contains([c1, c2, ..])` on a path:
+    the subject contains at least one of the characters (truth) / none of them"""
+    out = []
+    for c in p.conds():
+        if is_call(c.term, "str>::contains") and strip_refs(call_args(c.term)[0]) == subject and c.fact[0] == "eq" and isinstance(c.fact[1], bool):
+            pat = strip_refs(resolve_promoted(ctx, strip_refs(call_args(c.term)[1])))
+            if isinstance(pat, tuple) and pat[:2] == ("agg", "array"):
+                chs = [const_char(x) for x in pat[4]]
+            else:
+                chs = [const_char(pat) or const_str(pat)]
+            out.append((frozenset(chs), c.fact[1]))
+    return out
+
+
 def asserts_eq_const(c):
     """(x, k) if the path condition says that the integer term x equals the constant k, however the test is spelled:
     `x == k` taken, `x != k` not taken (either operand order), or the arm k of `match x`"""
